@@ -500,8 +500,8 @@ def _history_sig(op, sig, prefix="after-aborted-"):
             what = "raises-" + what.split(":", 1)[0]  # exception type only
         elif "->" in what:
             what = "becomes-" + what.split("->", 1)[1]
-        return f"{prefix}{op}>{op2}>{what}"
-    return f"{prefix}{op}>{sig}"
+        return f"{prefix}{op}~~{op2}~~{what}"
+    return f"{prefix}{op}~~{sig}"
 
 
 _FIRST_BAD = []  # per process: the aborted operation after which the first failure was seen
@@ -589,7 +589,7 @@ def weakref_problems(make_tree, stats):
     stats["weakref_family_refs"] += 3 * len(held[0])
     run(T, "with-live-weakrefs", "weak references to every node created first")
     if not all(r() is not None for r in held[0]) or len(held[1]) != len(held[0]):
-        out.append(("with-live-weakrefs>references-died", "a weak reference died while the tree was alive"))
+        out.append(("with-live-weakrefs~~references-died", "a weak reference died while the tree was alive"))
     del held
     gc.collect(0)
     run(T, "after-weakrefs-dropped", "the weak references were dropped again")
@@ -752,7 +752,7 @@ def regroup(fails):
                 det = f"[at {where}] {det}"
             else:
                 sig = f"{op}:{where}:{what}" if where else f"{op}:{what}"
-        out.append((sig.replace(">", ":"), case, det))
+        out.append((sig.replace("~~", ":"), case, det))
     return out
 
 
@@ -831,11 +831,11 @@ def run(tier):
     total.pop("depths", None)
 
     # a family failure whose kind also occurs without the family's situation is not caused by it
-    base = {_history_sig("", sig, prefix="").lstrip(">") for sig, case, _ in collected
+    base = {_history_sig("", sig, prefix="").lstrip("~") for sig, case, _ in collected
             if not (case.get("history") or case.get("weakrefs"))}
     kept, explained = [], 0
     for sig, case, det in collected:
-        if (case.get("history") or case.get("weakrefs")) and ">" in sig and sig.split(">", 1)[1] in base:
+        if (case.get("history") or case.get("weakrefs")) and "~~" in sig and sig.split("~~", 1)[1] in base:
             explained += 1
             continue
         kept.append((sig, case, det))
